@@ -1,4 +1,5 @@
 pub mod engine;
 pub mod gen;
+pub mod oracle;
 pub mod props;
 pub mod refmodel;
